@@ -54,8 +54,8 @@ struct Args {
     #[arg(long)]
     scores: bool,
 
-    /// Prints tag scores.
-    #[arg(long)]
+    /// Prints tag scores. (Requires --predict-tags)
+    #[arg(long, requires = "predict_tags")]
     tag_scores: bool,
 
     /// Do not normalize input strings before prediction.
@@ -138,11 +138,11 @@ fn main() -> Result<(), Box<dyn std::error::Error>> {
                 if args.scores {
                     print_scores(&s, &mut out)?;
                 }
+                if args.tag_scores {
+                    print_tag_scores(&s, &mut out)?;
+                }
             } else {
                 out.write_all(b"\n")?;
-            }
-            if args.tag_scores {
-                print_tag_scores(&s, &mut out)?;
             }
             if is_tty {
                 out.flush()?;
@@ -170,11 +170,11 @@ fn main() -> Result<(), Box<dyn std::error::Error>> {
                 if args.scores {
                     print_scores(&s, &mut out)?;
                 }
+                if args.tag_scores {
+                    print_tag_scores(&s, &mut out)?;
+                }
             } else {
                 out.write_all(b"\n")?;
-            }
-            if args.tag_scores {
-                print_tag_scores(&s, &mut out)?;
             }
             if is_tty {
                 out.flush()?;
